@@ -6,7 +6,8 @@
 (*   Req   io oobf auth maxkey idist rdist | rsp rauth alg family <out> <obs>                 *)
 (*   Pdu   op lc label | <out> <obs>          Poll | <out> <obs>                              *)
 (*   User  answer waspending <obs>            Enc on changed <obs>                            *)
-(*   Find  which | found kid indb dbsame <obs>                                                *)
+(*   Find  which | found kid kslot indb dbsame <obs>                                          *)
+(*   Db    peer slot on <obs>               (the application adds / removes a bond data base entry) *)
 (*   <out> = olen oop oerr carries out        <obs> = st lstat encrypted linkstat upend dask ddisp *)
 EXTENDS SecurityManager, Json, IOUtils, TLC
 
@@ -45,7 +46,7 @@ FailedIsIdle(ev) == E("C32") => (OutOf(ev) = "failed" => ev.st = "idle")
 Explain(ev) ==
     \/ /\ ev.e = "Reset"
        /\ ResetTo([kind |-> KindName(ev.kind), in |-> ev.in, out |-> ev.out, mitm |-> ev.mitm, bond |-> ev.bond,
-                    oob |-> ev.oob, sync |-> ev.sync])
+                    oob |-> ev.oob, sync |-> ev.sync, pre |-> {ev.pre[i] : i \in DOMAIN ev.pre}])
     \/ /\ ev.e = "Req"
        /\ Req([io |-> ev.io, oob |-> ev.oobf, auth |-> ev.auth, maxkey |-> ev.maxkey, idist |-> ev.idist, rdist |-> ev.rdist],
               OutOf(ev), IF ev.rsp THEN ev.rauth ELSE 0, IF ev.alg \in Methods THEN ev.alg ELSE "none")
@@ -54,19 +55,20 @@ Explain(ev) ==
     \/ ev.e = "Poll" /\ Poll(OutOf(ev)) /\ ObsOK(ev) /\ FailedIsIdle(ev)
     \/ ev.e = "User" /\ User(ev.answer) /\ ObsOK(ev)
     \/ ev.e = "Enc"  /\ Enc(ev.on) /\ ObsOK(ev)
-    \/ ev.e = "Find" /\ Find(ev.which, ev.found, ev.kid, ev.dbsame) /\ ObsOK(ev)
+    \/ ev.e = "Find" /\ Find(ev.which, ev.found, ev.kid, ev.kslot, ev.dbsame) /\ ObsOK(ev)
+    \/ ev.e = "Db"   /\ Db(ev.peer, ev.slot, ev.on) /\ ObsOK(ev)
 
 Resets == {i \in 1..Len(Tr) : Tr[i].e = "Reset"}
 NextReset(i) == IF \E j \in Resets : j > i
                 THEN CHOOSE j \in Resets : j > i /\ \A k \in Resets : k > i => j <= k
                 ELSE Len(Tr) + 1
 
-TInit == InitWith([kind |-> "legacy", in |-> 0, out |-> 0, mitm |-> FALSE, bond |-> FALSE, oob |-> FALSE, sync |-> -1]) /\ l = 1
+TInit == InitWith([kind |-> "legacy", in |-> 0, out |-> 0, mitm |-> FALSE, bond |-> FALSE, oob |-> FALSE, sync |-> -1, pre |-> {}]) /\ l = 1
 
 \* the state in which an event was rejected (for the signature of the finding)
 Context == [phase |-> phase, fam |-> fam, alg |-> alg, mconf |-> mconf, ea |-> ea, user |-> user, shown |-> shown,
             pairedOk |-> pairedOk, authOk |-> authOk, enc |-> enc, budget |-> budget, dbLesc |-> dbLesc, dbNew |-> dbNew,
-            expstatus |-> ExpStatus]
+            pre |-> cfg.pre, expstatus |-> ExpStatus]
 
 TNext ==
     \/ /\ l <= Len(Tr)
